@@ -109,6 +109,182 @@ class CFG:
                 dq.append(t)
         return seen
 
+    # ---- feasible reachability: forward propagation of what is known about enum variants / bool and integer constants
+    def _tracked(self):
+        """locals whose value can be followed through assignments: never mutably borrowed, never written through a projection"""
+        if getattr(self, '_trk', None) is None:
+            bad = set()
+            for blk in self.body.blocks:
+                for st in blk['stmts']:
+                    rv = st['rv']
+                    if rv['k'] in ('ref', 'rawptr') and rv.get('mut', rv['k'] == 'rawptr'):
+                        bad.add(rv['p']['l'])
+                    if st['dst']['proj']:
+                        bad.add(st['dst']['l'])
+                t = blk['term']
+                if t and isinstance(t.get('dst'), dict) and t['dst'].get('proj'):
+                    bad.add(t['dst']['l'])
+            self._trk = bad
+        return self._trk
+
+    def _two_variants(self, l):
+        ty = self.body.locals[l]['ty']
+        return ty.startswith(('std::option::Option<', 'core::option::Option<', 'std::result::Result<', 'core::result::Result<', 'std::ops::ControlFlow<', 'core::ops::ControlFlow<'))
+
+    def _flow_block(self, bi, facts):
+        """[(succ, label, facts')] for the feasible successors of block `bi` entered with `facts` {local: ('v', variant) | ('c', const)}"""
+        bad = self._tracked()
+        f = dict(facts)
+        blk = self.body.blocks[bi]
+        discr_of = {}
+        def payload_read(op):
+            # `(y as Variant).0` of a tracked local: what is known about the payload y was built with
+            if op['k'] == 'const':
+                return None
+            pr = op['p']['proj']
+            if len(pr) == 2 and isinstance(pr[0], dict) and 'dc' in pr[0] and isinstance(pr[1], dict) and pr[1].get('f') == 0 and op['p']['l'] not in bad:
+                return f.get((op['p']['l'], '#0'))
+            return None
+        for st in blk['stmts']:
+            d = st['dst']
+            if d['proj']:
+                f.pop(d['l'], None)
+                f.pop((d['l'], '#0'), None)
+                continue
+            rv = st['rv']
+            val = None
+            inner = None
+            if d['l'] not in bad:
+                if rv['k'] == 'agg' and rv.get('ak') == 'adt' and 'variant' in rv and len(rv['ops']) == 1 and rv['ops'][0]['k'] != 'const' and not rv['ops'][0]['p']['proj']:
+                    inner = f.get(rv['ops'][0]['p']['l'])
+                elif rv['k'] == 'use' and rv['ops'][0]['k'] != 'const' and not rv['ops'][0]['p']['proj']:
+                    inner = f.get((rv['ops'][0]['p']['l'], '#0'))
+                elif rv['k'] == 'use':
+                    pv = payload_read(rv['ops'][0])
+                    if pv is not None:
+                        val = pv
+            f.pop((d['l'], '#0'), None)
+            if inner is not None:
+                f[(d['l'], '#0')] = inner
+            if val is not None:
+                f[d['l']] = val
+                continue
+            if d['l'] not in bad:
+                if rv['k'] == 'agg' and rv.get('ak') == 'adt' and 'variant' in rv:
+                    val = ('v', rv['variant'])
+                elif rv['k'] == 'use' and rv['ops'][0]['k'] == 'const' and 'v' in rv['ops'][0] and isinstance(rv['ops'][0]['v'], (int, bool)):
+                    val = ('c', int(rv['ops'][0]['v']))
+                elif rv['k'] == 'use' and rv['ops'][0]['k'] != 'const' and not rv['ops'][0]['p']['proj']:
+                    val = f.get(rv['ops'][0]['p']['l'])
+                elif rv['k'] == 'discr' and not rv['p']['proj']:
+                    kv = f.get(rv['p']['l'])
+                    if kv and kv[0] == 'v':
+                        val = ('c', kv[1])
+                    discr_of[d['l']] = rv['p']['l']
+                elif rv['k'] == 'un' and rv.get('op') == 'Not' and rv['ops'][0]['k'] != 'const' and not rv['ops'][0]['p']['proj']:
+                    kv = f.get(rv['ops'][0]['p']['l'])
+                    if kv and kv[0] == 'c' and kv[1] in (0, 1):
+                        val = ('c', 1 - kv[1])
+            # a moved-from / overwritten source keeps its fact only if it is not the destination
+            for k_ in [k_ for k_, src in discr_of.items() if src == d['l'] and k_ != d['l']]:
+                discr_of.pop(k_, None)
+            if val is None:
+                f.pop(d['l'], None)
+            else:
+                f[d['l']] = val
+        t = blk['term']
+        if t is None:
+            return []
+        if t['k'] == 'call' and isinstance(t.get('dst'), dict):
+            dl_ = t['dst'].get('l')
+            known, inner = None, None
+            fn_ = (t.get('func') or {}).get('fn') or ''
+            if ('Try::branch' in fn_ or 'Try>::branch' in fn_) and t.get('args') and t['args'][0]['k'] != 'const' and not t['args'][0]['p']['proj'] and not t['dst'].get('proj'):
+                y = t['args'][0]['p']['l']
+                ty = self.body.locals[y]['ty']
+                kv = f.get(y)
+                if kv and kv[0] == 'v' and y not in bad:
+                    if 'result::Result<' in ty[:30]:
+                        known = ('v', 0 if kv[1] == 0 else 1)
+                    elif 'option::Option<' in ty[:30]:
+                        known = ('v', 0 if kv[1] == 1 else 1)
+                inner = f.get((y, '#0')) if y not in bad else None
+            f.pop(dl_, None)
+            f.pop((dl_, '#0'), None)
+            if dl_ not in bad:
+                if known is not None:
+                    f[dl_] = known
+                if inner is not None:
+                    f[(dl_, '#0')] = inner
+        outs = self.succ[bi]
+        if t['k'] != 'switch' or t['on']['k'] == 'const' or t['on']['p']['proj'] or len(outs) <= 1:
+            return [(x, lab, f) for x, lab in outs]
+        c = t['on']['p']['l']
+        kv = f.get(c)
+        listed = [v for v, _ in t['targets']]
+        res = []
+        for x, lab in outs:
+            if kv and kv[0] == 'c':
+                if lab == 'otherwise':
+                    if kv[1] in listed:
+                        continue
+                elif lab != kv[1]:
+                    continue
+            f2 = dict(f)
+            v = lab
+            if lab == 'otherwise':
+                v = None
+                if len(listed) == 1 and listed[0] in (0, 1) and (self.body.locals[c]['ty'] == 'bool' or (c in discr_of and self._two_variants(discr_of[c]))):
+                    v = 1 - listed[0]
+            if v is not None and c not in bad:
+                f2[c] = ('c', v)
+                y = discr_of.get(c)
+                if y is not None and y not in bad:
+                    f2[y] = ('v', v)
+            res.append((x, lab, f2))
+        return res
+
+    def feasible_reach(self, start=0, cut_edges=(), cut_blocks=(), facts=None):
+        """like reach(), but a switch on a value that is known on the way there (an enum variant just built or just tested, a
+        bool / integer constant) is followed only along the edge it takes. Facts meet by agreement where paths join, so the
+        result is a superset of what can execute and a subset of reach()."""
+        cut2, cut3 = set(), set()
+        for e in cut_edges:
+            (cut2 if len(e) == 2 else cut3).add(tuple(e))
+        cutb = set(cut_blocks)
+        if start in cutb:
+            return set()
+        inf = {start: dict(facts or {})}
+        work = deque([start])
+        steps = 0
+        while work and steps < 20000:
+            steps += 1
+            s = work.popleft()
+            for x, lab, f2 in self._flow_block(s, inf[s]):
+                if (s, x) in cut2 or (s, x, lab) in cut3 or x in cutb:
+                    continue
+                if x not in inf:
+                    inf[x] = f2
+                    work.append(x)
+                else:
+                    cur = inf[x]
+                    m = {k: v for k, v in cur.items() if f2.get(k) == v}
+                    if len(m) != len(cur):
+                        inf[x] = m
+                        work.append(x)
+        if work:
+            return self.reach(start, cut_edges, cut_blocks)      # did not converge in the budget: fall back to plain reachability
+        return set(inf)
+
+    def feasible_after_edge(self, edge, cut_edges=(), cut_blocks=()):
+        """blocks that can execute after `edge` (s, t[, label]) was taken, given what taking it establishes"""
+        s_, t_ = edge[0], edge[1]
+        lab = edge[2] if len(edge) > 2 else None
+        for x, l2, f2 in self._flow_block(s_, {}):
+            if x == t_ and (len(edge) < 3 or l2 == lab):
+                return self.feasible_reach(t_, cut_edges, cut_blocks, facts=f2)
+        return self.reach(t_, cut_edges, cut_blocks)
+
     def reachable(self):
         if self._reach0 is None:
             self._reach0 = self.reach(0)
@@ -139,7 +315,10 @@ class CFG:
         """target reachable only through at least one of `edges` (cutting all of them disconnects it)."""
         if target not in self.reachable():
             return False
-        return target not in self.reach(0, cut_edges=list(edges))
+        if target not in self.reach(0, cut_edges=list(edges)):
+            return True
+        # path-insensitively reachable around the edges: is any of those ways feasible?
+        return target not in self.feasible_reach(0, cut_edges=list(edges))
 
     def block_guards(self, blk, target):
         return self.dominates(blk, target)
